@@ -1365,6 +1365,32 @@ package stun
 //@   ensures len(a.IP) == 16 && !old(isIPv4spec(a.IP)) ==> result1 == nil && result0.Port == a.Port && len(result0.IP) == 16 && Eq16(result0.IP, a.IP)
 //@   ensures len(a.IP) == 16 && old(isIPv4spec(a.IP)) ==> result1 == nil && result0.Port == a.Port && len(result0.IP) == 4 && Eq4(result0.IP, a.IP, 12)
 
+//@ func verifLemmaErrorCodeRoundTrip(m, c)
+//@   safety C06
+//@   props C06
+//@   requires m != nil && Built(m) && Wire(m) && len(m.Raw) >= 20 + m.Length && Fits(m, 4 + len(c.Reason)) && region(c.Reason) != region(m.Raw)
+//@   requires 0 <= c.Code && c.Code <= 25599 && !Has(m, 0x0009)
+//@   assigns *m, mem(m.Raw), mem(m.Attributes)
+//@   allocates
+//@   assert len(c.Reason) <= 763 ==> len(m.Attributes) == old(len(m.Attributes)) + 1 && First(m.Attributes, 0x0009) == old(len(m.Attributes))
+//@   assert len(c.Reason) <= 763 ==> len(AttrVal(m, 0x0009)) == 4 + len(c.Reason) && AttrVal(m, 0x0009)[2] == c.Code / 100 && AttrVal(m, 0x0009)[3] == c.Code % 100
+//@   assert len(c.Reason) <= 763 ==> forall(j, 0, len(c.Reason), AttrVal(m, 0x0009)[4+j] == old(c.Reason[j]))
+//@   ensures len(c.Reason) > 763 ==> result1 != nil
+//@   ensures len(c.Reason) <= 763 ==> result1 == nil && result0.Code == c.Code && len(result0.Reason) == len(c.Reason)
+//@   ensures len(c.Reason) <= 763 ==> forall(j, 0, len(c.Reason), result0.Reason[j] == old(c.Reason[j]))
+
+//@ func verifLemmaUnknownAttrsRoundTrip(m, a)
+//@   safety C06
+//@   props C06
+//@   requires m != nil && Built(m) && Wire(m) && len(m.Raw) >= 20 + m.Length && Fits(m, 2 * len(a)) && region(a) != region(m.Raw) && !Has(m, 0x000A)
+//@   assigns *m, mem(m.Raw), mem(m.Attributes)
+//@   allocates
+//@   assert len(m.Attributes) == old(len(m.Attributes)) + 1 && First(m.Attributes, 0x000A) == old(len(m.Attributes))
+//@   assert len(AttrVal(m, 0x000A)) == 2 * len(a)
+//@   assert forall(k, 0, len(a), AttrVal(m, 0x000A)[2*k] == old(a[k]) / 256 && AttrVal(m, 0x000A)[2*k + 1] == old(a[k]) % 256)
+//@   ensures result1 == nil && len(result0) == len(a)
+//@   ensures forall(k, 0, len(a), result0[k] == old(a[k]))
+
 //@ func Build(setters)
 //@   safety C03 C09
 //@   props C03 C09
